@@ -72,8 +72,12 @@ def run(ctx):
     # 1. the transcriptions of both packers against the C07 relation PackOK
     mc = dict(AtomVals=('v1',), RefSets='RefsNoRoot', Cls='MCClsPlain')
     for kind in ('file', 'mapping'):
-        S.model_check(ctx, kind + '-pack-2x2', sd.consts(kind, NOid=2, MaxTxn=2, MaxRecs=2, MaxClock=2, **mc),
+        S.model_check(ctx, kind + '-pack-2x2', sd.consts(kind, NOid=2, MaxTxn=2, MaxRecs=2 if (kind == 'mapping' or not q) else 1,
+                                                         MaxClock=2, **mc),
                       invariants=['TypeOK'], properties=props, next_='NextWithPack', timeout=900)
+        if q and kind == 'file':
+            S.model_check(ctx, 'file-pack-3x1-1clock', sd.consts(kind, NOid=2, MaxTxn=3, MaxRecs=1, MaxClock=1, **mc),
+                          invariants=['TypeOK'], properties=props, next_='NextWithPack', timeout=900)
         if not q:
             S.model_check(ctx, kind + '-pack-2oid', sd.consts(kind, NOid=2, MaxTxn=3, MaxRecs=1, MaxClock=2, **mc),
                           invariants=['TypeOK'], properties=props, next_='NextWithPack', timeout=900)
@@ -81,7 +85,7 @@ def run(ctx):
                           invariants=['TypeOK'], properties=props, next_='NextWithPack', timeout=3000)
     # 2. behaviours with packs at every time, gc on/off, repeated, then more commits / undos / reopen
     big = dict(NOid=4, Metas=('m0',), MaxTxn=9, MaxRecs=3, MaxClock=4, AtomVals=('v1', 'v2'), RefSets='FewRefs2', Cls='MCClsPlain')
-    num = 200 if q else 6000
+    num = 150 if q else 6000
     cov = {}
     for kind in ('file', 'mapping'):
         c = sd.consts(kind, **big)
@@ -90,7 +94,7 @@ def run(ctx):
         # 3. directed scenarios evaluated by TLC (ZScript)
         import random
         from ..drivers import scripts as sc
-        scripts = pack_scripts(random.Random(ctx.seed * 7919 + 1), 120 if q else 1500)
+        scripts = pack_scripts(random.Random(ctx.seed * 7919 + 1), 80 if q else 1500)
         if kind == 'mapping':
             scripts = [[e for e in s if e['a'] not in ('undo', 'delete', 'reopen')] for s in scripts]
             scripts = [s for s in scripts if not _dangling_txn(s)]
